@@ -39,6 +39,8 @@ def main():
         from dsim import props as P
         props = P.claimed()
     patch = os.path.abspath(os.path.join(d, 'patch.diff'))
+    if '--scratch' in args:
+        return scratch(d, patch, props, tier)
     if not clean():
         print('refusing: /repo working tree is not clean')
         return 2
@@ -64,6 +66,42 @@ def main():
         return 2
     out = os.path.join(d, 'sens_result.json')
     with open(out, 'w') as f:
+        json.dump(results, f, indent=1)
+    return 0
+
+
+def scratch(d, patch, props, tier):
+    """Same, on a scratch worktree of /repo under /dev/shm (DSIM_REPO), so that /repo is not touched while
+    background runs use it; evidence and replays of these runs go to the scratch area too."""
+    import shutil
+    name = os.path.basename(os.path.normpath(d))
+    base = '/dev/shm/dsim-sens'
+    wt = os.path.join(base, name)
+    os.makedirs(base, exist_ok=True)
+    subprocess.run(['git', '-C', REPO, 'worktree', 'remove', '--force', wt], capture_output=True)
+    subprocess.run(['git', '-C', REPO, 'worktree', 'add', '-q', '--detach', wt, 'HEAD'], check=True)
+    results = {}
+    try:
+        r = subprocess.run(['git', '-C', wt, 'apply', patch], capture_output=True, text=True)
+        if r.returncode != 0:
+            print('patch does not apply:', r.stderr[:500])
+            return 2
+        env = dict(os.environ)
+        env['DSIM_REPO'] = wt
+        env['DSIM_EVIDENCE_DIR'] = os.path.join(base, name + '-evidence')
+        env['DSIM_REPLAYS_DIR'] = os.path.join(VERIF, 'seeded-replays', name)
+        for p in props:
+            t = time.time()
+            c = subprocess.run([os.path.join(VERIF, 'check'), p, tier], capture_output=True, text=True, cwd=VERIF, env=env)
+            lines = [l for l in c.stdout.split('\n') if l.startswith('VIOLATION') or l.startswith('  clause=') or 'HARNESS' in l]
+            results[p] = {'rc': c.returncode, 'wall': round(time.time() - t, 1), 'lines': lines[:8]}
+            print('%s %s rc=%d %.0fs' % (name, p, c.returncode, time.time() - t))
+            for l in lines[:4]:
+                print('   ', l[:260])
+    finally:
+        subprocess.run(['git', '-C', REPO, 'worktree', 'remove', '--force', wt], capture_output=True)
+        shutil.rmtree(os.path.join(base, name + '-evidence'), ignore_errors=True)
+    with open(os.path.join(d, 'sens_result.json'), 'w') as f:
         json.dump(results, f, indent=1)
     return 0
 
